@@ -249,7 +249,7 @@ def targeted_jobs(chk, cmp=CMP_SPEND):
                     continue
                 if ver != 2 and (seq, opnd) not in ((1, b"\x01"), (5, b"\x01"), (0, b"\x00\x00\x00\x80\x00")):
                     continue
-                ws = push(opnd) + O("CHECKSEQUENCEVERIFY") + O("DROP") + b"\x51"
+                ws = (bytes([0x50 + opnd[0]]) if len(opnd) == 1 and 1 <= opnd[0] <= 16 else push(opnd)) + O("CHECKSEQUENCEVERIFY") + O("DROP") + b"\x51"
                 for typ in ("p2wsh", "bare"):
                     c = SpendCase(rng, "p2wsh", "valid", 1, 0, 0)
                     c.tx.version = ver; c.tx.vin[0].sequence = seq
